@@ -33,12 +33,22 @@ def opPred : P String := do
   | "default" =>
     let m := defaultCheck rel abs a b
     let exact := !a.dtype.hasFloats && !b.dtype.hasFloats
-    let spec := if exact then showVerdict (.ok (Spec.exactSpec a b))
-      else match Spec.fuzzySpec rel abs a b with
-        | some v => showVerdict (.ok v)
-        | none => "E"
-    let hyp := exact || hypC01 rel abs a b
-    pure s!"hyp={showBool hyp} model={showVerdict m} spec={if hyp then spec else "-"}"
+    -- an integer operand next to a float64 one is promoted to float64 (values converted exactly
+    -- or rounded); the type minimum is excluded from `hyp` (numpy's abs wraps on it)
+    let conv (x : NdArr) : Option NdArr := match x.dtype with
+      | .int sg bits =>
+        if x.data.any (fun v => sg && v == -(2 ^ (bits - 1) : Int)) then none
+        else (intsToF64 x.data).map fun d => { x with dtype := .flt f64, data := d }
+      | _ => some x
+    match conv a, conv b with
+    | some a', some b' =>
+      let spec := if exact then showVerdict (.ok (Spec.exactSpec a b))
+        else match Spec.fuzzySpec rel abs a' b' with
+          | some v => showVerdict (.ok v)
+          | none => "E"
+      let hyp := exact || hypC01 rel abs a' b'
+      pure s!"hyp={showBool hyp} model={showVerdict m} spec={if hyp then spec else "-"}"
+    | _, _ => pure s!"hyp=0 model={showVerdict m} spec=-"
   | "exact" =>
     let m := exactCheck a b
     pure s!"hyp=1 model={showVerdict m} spec={showVerdict (.ok (Spec.exactSpec a b))}"
@@ -52,6 +62,26 @@ def opScaled : P String := do
   match scaledTolerance base a b with
   | some u => pure s!"hyp=1 model={u} spec={u}"
   | none => pure "hyp=1 model=none spec=none"
+
+/-- `scaledint <signed> <bits> <base> <a…> <b…>` → ScaledTolerance on integer arrays -/
+def opScaledInt : P String := do
+  let sg ← pBool
+  let bits ← pNat
+  let base ← pNat
+  let a ← pList pInt
+  let b ← pList pInt
+  let hasMin := (a ++ b).any fun v => sg && v == -(2 ^ (bits - 1) : Int)
+  let spec : Option Int :=
+    if a.isEmpty ∨ b.isEmpty then none
+    else
+      let m := (a ++ b).foldl (fun m x => max m x.natAbs) 0
+      match intToF64 m with
+      | some mu => rndInt f64 (mu * base) UNIT
+      | none => none
+  let sh : Option Int → String := fun o => match o with
+    | some u => toString u
+    | none => "none"
+  pure s!"hyp={showBool (!hasMin)} model={sh (scaledToleranceInt sg bits base a b)} spec={sh spec}"
 
 /-- `rnd <fmt> <a> <s>` → rounded magnitude (tests the rounding model itself) -/
 def opRnd : P String := do
@@ -71,6 +101,7 @@ def handleA (op : String) : Option (P String) :=
   match op with
   | "pred" => some opPred
   | "scaled" => some opScaled
+  | "scaledint" => some opScaledInt
   | "rnd" => some opRnd
   | _ => none
 
